@@ -3,7 +3,12 @@
 //!   corgi-verif replay <ID> <file> [--root DIR]
 //! exit 0: property held on everything explored; 1: violation (VIOLATION line); 2: inconclusive / internal.
 
+mod c02;
 mod c04;
+mod c05;
+mod c06;
+mod c07;
+mod gens;
 mod cmp;
 mod exec;
 mod known;
@@ -19,6 +24,10 @@ use std::time::Instant;
 fn dispatch_for(id: &str) -> Option<fn(&str, &serde_json::Value) -> Option<Outcome>> {
     Some(match id {
         "C04" => c04::dispatch,
+        "C05" => c05::dispatch,
+        "C06" => c06::dispatch,
+        "C07" => c07::dispatch,
+        "C02" => c02::dispatch,
         _ => return None,
     })
 }
@@ -26,6 +35,10 @@ fn dispatch_for(id: &str) -> Option<fn(&str, &serde_json::Value) -> Option<Outco
 fn run_check(ctx: &Ctx) -> i32 {
     match ctx.property.as_str() {
         "C04" => c04::run(ctx),
+        "C05" => c05::run(ctx),
+        "C06" => c06::run(ctx),
+        "C07" => c07::run(ctx),
+        "C02" => c02::run(ctx),
         other => {
             eprintln!("unknown property {}", other);
             2
